@@ -36,9 +36,15 @@ structure Facts (pg : PUG U) (group : List (Node U)) (F : UG (U × Nat))
   starts : ∀ X, X ∈ F.starts ↔ ∃ l ∈ L, l.sp = X
   chain : ∀ l ∈ L, ∀ s ∈ l.steps'.tail, AList.lookup s.1 F.rules = some [(s.2.1, [s.2.2])]
   pendC : ∀ l ∈ L, ∀ e ∈ l.pend, IsCopy pg F.rules T e.2
-  closed : ∀ X, IsCopy pg F.rules T X → ∀ S' ∈ rhsSyms pg (er X), IsCopy pg F.rules T (free S')
+  closed : ∀ X, (idx X = 0 ∨ ∃ l ∈ L, ∃ e ∈ l.pend, e.2 = X) → IsCopy pg F.rules T X →
+    ∀ S' ∈ rhsSyms pg (er X), IsCopy pg F.rules T (free S')
   startRow : ∀ X, (∃ l ∈ L, l.sp = X) → (∀ l ∈ L, l.sp = X → l.n.steps ≠ []) →
     ∀ Q a, (Q, a) ∈ alts F X ↔ ∃ l ∈ L, l.sp = X ∧ l.steps'.head? = some (X, Q, a)
+
+/-- `X` is a free copy or a copy pending at the end of a path, and is derived as in the original -/
+def Cp (pg : PUG U) (F : UG (U × Nat)) (T : AList (UNT (U × Nat)) (AList Sym (AList (List (UNT (U × Nat))) Rat)))
+    (L : List (Lay U)) (X : UNT (U × Nat)) : Prop :=
+  IsCopy pg F.rules T X ∧ (idx X = 0 ∨ ∃ l ∈ L, ∃ e ∈ l.pend, e.2 = X)
 
 /-! ### copies are derived as in the original grammar -/
 
@@ -79,17 +85,17 @@ variable {pg : PUG U} {group : List (Node U)} {F : UG (U × Nat)}
   {T : AList (UNT (U × Nat)) (AList Sym (AList (List (UNT (U × Nat))) Rat))} {L : List (Lay U)}
 
 theorem copy_next (hf : Facts pg group F T L) {X : UNT (U × Nat)} {c : List (UNT (U × Nat))}
-    (hc : ∀ Y ∈ X :: c, IsCopy pg F.rules T Y) {P : Sym} {a : List (UNT U)} (ha : (P, a) ∈ alts pg.g (er X)) :
-    ∀ Y ∈ a.map free ++ c, IsCopy pg F.rules T Y := by
+    (hc : ∀ Y ∈ X :: c, Cp pg F T L Y) {P : Sym} {a : List (UNT U)} (ha : (P, a) ∈ alts pg.g (er X)) :
+    ∀ Y ∈ a.map free ++ c, Cp pg F T L Y := by
   intro Y hY
   rcases List.mem_append.mp hY with hY | hY
   · obtain ⟨S', hS', rfl⟩ := List.mem_map.mp hY
-    exact hf.closed X (hc X (by simp)) S' (mem_rhsSyms ha S' hS')
+    exact ⟨hf.closed X (hc X (by simp)).2 (hc X (by simp)).1 S' (mem_rhsSyms ha S' hS'), Or.inl rfl⟩
   · exact hc Y (List.mem_cons_of_mem _ hY)
 
 /-- an original continuation of the erased stack can be followed by the copies -/
 theorem copy_complete (hf : Facts pg group F T L) : ∀ (w : List (Step U)) (c : List (UNT (U × Nat))),
-    (∀ Y ∈ c, IsCopy pg F.rules T Y) → run pg.g (c.map er) w = some [] →
+    (∀ Y ∈ c, Cp pg F T L Y) → run pg.g (c.map er) w = some [] →
       run F c (lift c w) = some [] ∧ (lift c w).map erStep = w
   | [], c, _, h => by
     simp only [run, Option.some.injEq, List.map_eq_nil_iff] at h
@@ -108,7 +114,7 @@ theorem copy_complete (hf : Facts pg group F T L) : ∀ (w : List (Step U)) (c :
       obtain ⟨ih1, ih2⟩ := copy_complete hf w (a.map free ++ c) hnext
         (by simp only [List.map_append, map_er_free]; exact h)
       have hmem : (P, a.map free) ∈ alts F X := by
-        rw [alts_copy (hc X (by simp))]
+        rw [alts_copy (hc X (by simp)).1]
         exact List.mem_map.mpr ⟨(P, a), ha, rfl⟩
       refine ⟨?_, ?_⟩
       · simp only [lift, run, hmem, and_self, if_true]
@@ -119,7 +125,7 @@ theorem copy_complete (hf : Facts pg group F T L) : ∀ (w : List (Step U)) (c :
 /-- a complete derivation from a stack of copies erases to an original continuation and is
     determined by it -/
 theorem copy_sound (hf : Facts pg group F T L) : ∀ (w' : List (Step (U × Nat))) (c : List (UNT (U × Nat))),
-    (∀ Y ∈ c, IsCopy pg F.rules T Y) → run F c w' = some [] →
+    (∀ Y ∈ c, Cp pg F T L Y) → run F c w' = some [] →
       run pg.g (c.map er) (w'.map erStep) = some [] ∧ w' = lift c (w'.map erStep)
   | [], c, _, h => by
     simp only [run, Option.some.injEq] at h
@@ -130,7 +136,7 @@ theorem copy_sound (hf : Facts pg group F T L) : ∀ (w' : List (Step (U × Nat)
     obtain ⟨Q, a', w'', heq, hQa, hrun⟩ := run_cons_complete F _ _ _ h
     simp only [List.cons.injEq] at heq
     obtain ⟨rfl, rfl⟩ := heq
-    rw [alts_copy (hc X (by simp))] at hQa
+    rw [alts_copy (hc X (by simp)).1] at hQa
     obtain ⟨⟨P, a⟩, ha, hpa⟩ := List.mem_map.mp hQa
     simp only [Prod.mk.injEq] at hpa
     obtain ⟨rfl, rfl⟩ := hpa
@@ -301,7 +307,7 @@ theorem frag_sound (hf : Facts pg group F T L) (hv : ∀ n ∈ group, Valid pg.g
   have hval := hv _ hn
   obtain ⟨hs1, _⟩ := copy_sound hf rem (names l.pend) (fun Y hY => by
     obtain ⟨e, he, rfl⟩ := List.mem_map.mp hY
-    exact hf.pendC l hl e he) hrun
+    exact ⟨hf.pendC l hl e he, Or.inr ⟨l, hl, e, he, rfl⟩⟩) hrun
   rw [pend_config hf hl hval] at hs1
   have her : w'.map erStep = l.n.steps ++ rem.map erStep := by
     rw [hw, List.map_append, (pendOK_lay hf hl).1]
@@ -327,7 +333,7 @@ theorem frag_complete (hf : Facts pg group F T L) (hv : ∀ n ∈ group, Valid p
   rw [← pend_config hf hl hval] at hrun
   obtain ⟨c1, c2⟩ := copy_complete hf rem (names l.pend) (fun Y hY => by
     obtain ⟨e, he, rfl⟩ := List.mem_map.mp hY
-    exact hf.pendC l hl e he) hrun
+    exact ⟨hf.pendC l hl e he, Or.inr ⟨l, hl, e, he, rfl⟩⟩) hrun
   refine ⟨l.sp, l.steps' ++ lift (names l.pend) rem, ⟨(hf.starts _).mpr ⟨l, hl, rfl⟩, ?_⟩, ?_, ?_⟩
   · rw [run_append, run_path hf hpf hl]
     exact c1
@@ -356,9 +362,9 @@ theorem frag_inj (hf : Facts pg group F T L) (hpf : PrefixFree group)
     · exact (lay_eq hf hpf hl2 hl1 hst.symm h).symm
   subst hll
   have hrem : rem1.map erStep = rem2.map erStep := List.append_cancel_left hw
-  have hc : ∀ Y ∈ names l1.pend, IsCopy pg F.rules T Y := fun Y hY => by
+  have hc : ∀ Y ∈ names l1.pend, Cp pg F T L Y := fun Y hY => by
     obtain ⟨e, he, rfl⟩ := List.mem_map.mp hY
-    exact hf.pendC l1 hl1 e he
+    exact ⟨hf.pendC l1 hl1 e he, Or.inr ⟨l1, hl1, e, he, rfl⟩⟩
   have r1 := (copy_sound hf rem1 _ hc hrun1).2
   have r2 := (copy_sound hf rem2 _ hc hrun2).2
   rw [hw1, hw2, r1, r2, hrem]
